@@ -128,6 +128,7 @@ out:
 /* optional out-parameters are NULL in one call out of four; the variable is preset to what the callee would have stored */
 static size_t *optout(size_t *p, size_t expect) { if (rng_chance(&R, 1, 4)) { *p = expect; vf_count("calls_with_null_out_parameter", 1); return NULL; } return p; }
 static void content_check(void) {
+    { static unsigned long pc; if (T->qmutex && (++pc % 29) == 0 && !vf_lock_probe(T->qmutex)) { judge("C05", "unusable-for-other-threads", "a second thread can not take the lock of the (thread-safe) table: an earlier call returned with it held"); return; } }
     if (DEBUG_NOW()) { T->debug(T, DEVNULL); vf_count("debug_prints", 1); }
     vf_count("content_compares", 1);
     if (T->size(T) != (size_t)MN) { judge("C05", "size", "size()=%zu model=%d", T->size(T), MN); return; }
@@ -139,10 +140,11 @@ static void content_check(void) {
     }
 }
 
-static unsigned char VBUF[400];
+static unsigned char VBUF[2400];
 static size_t gen_value(bool as_string) {
     size_t l; uint32_t c = rng_below(&R, 10);
     if (c < 5) l = 1 + rng_below(&R, 12); else if (c < 9) l = 1 + rng_below(&R, 80); else l = 200 + rng_below(&R, 101);
+    if (as_string && rng_chance(&R, 1, 40)) l = (size_t[]){1023, 1024, 1025, 1500, 2048}[rng_below(&R, 5)];     /* the formatted put functions retry with a larger buffer from 1024 bytes on */
     valctr++;
     for (size_t i = 0; i < l; i++) VBUF[i] = as_string ? (unsigned char)(1 + rng_below(&R, 255)) : (rng_chance(&R, 1, 4) ? 0 : (unsigned char)rng_below(&R, 256));
     VBUF[0] = (unsigned char)(valctr | 1); if (l > 2) VBUF[1] = (unsigned char)((valctr >> 7) | 1);
@@ -152,7 +154,7 @@ static size_t gen_value(bool as_string) {
 
 static void table_new(size_t range) {
     ledger_mark = vf_ledger_mark();
-    T = qhashtbl(range, 0);
+    { static unsigned long tctr; tctr++; T = qhashtbl(range, (tctr & 1) ? QHASHTBL_THREADSAFE : 0); }   /* every other table is thread-safe: a call that keeps the lock is seen by the probe in content_check */
     if (!T) { fprintf(stderr, "qhashtbl() failed\n"); exit(2); }
     RANGE = T->range;
     abandon = false;
@@ -288,7 +290,15 @@ static void history(long caseno) {
         else if (c < 94) op_walk(rng_chance(&R, 1, 2));
         else if (c < 96) { vf_log("size"); if (T->size(T) != (size_t)MN) judge("C05", "size", "size()=%zu model=%d", T->size(T), MN); }
         else if (c < 97 && rng_chance(&R, 1, 3)) { vf_log("clear"); T->clear(T); m_clear(); vf_count("clear", 1); mut = true; }
+        else if (rng_chance(&R, 1, 2)) { /* re-put of a key with (a prefix of) its own stored bytes, through the pointer a non-copying get handed out */
+               int id = pick_key(); if (MP[id] && MVL[id]) { size_t sz = 0; void *d = T->get(T, UK[id], &sz, false);
+                   if (!d || sz != MVL[id]) judge("C05", "get-wrong", "non-copying get of key %d: size %zu expected %zu", id, sz, MVL[id]);
+                   else { size_t nl = rng_chance(&R, 1, 4) ? sz : 1 + rng_below(&R, (uint32_t)sz); unsigned char *expect = vf_xdup(d, nl);
+                          vf_log("put k%d with its own stored bytes, length %zu of %zu", id, nl, sz);
+                          if (!T->put(T, UK[id], d, nl)) judge("C05", "put-failed", "re-put of key %d with its own bytes returned false", id);
+                          m_put(id, expect, nl); hm_free(expect); mut = true; vf_count("puts_from_the_stored_pointer", 1); } } }
         else { errno = 0; vf_log("invalid"); if (T->put(T, NULL, "x", 1) || errno != EINVAL) judge("C05", "einval", "put(NULL name) not refused");
+               { int id = pick_key(); errno = 0; if (T->put(T, UK[id], NULL, 3) || errno != EINVAL) judge("C05", "einval", "put(NULL data) not refused"); }
                errno = 0; if (T->get(T, NULL, NULL, false) || errno != EINVAL) judge("C05", "einval", "get(NULL) not refused");
                errno = 0; if (T->remove(T, NULL) || errno != EINVAL) judge("C05", "einval", "remove(NULL) not refused"); vf_count("invalid_arg_calls", 3); }
         vf_count("evaluations", 1);
